@@ -10,7 +10,8 @@ PROP = {'drive': ['ShapeSpec'],
                        'C06_ligature_moves_skipped',
                        'C06_valuerecord_exact',
                        'C06_anchor_exact',
-                       'C06_engine_eq_spec_simple'],
+                       'C06_engine_eq_spec_simple',
+                       'C06_engine_eq_spec_ctx_partial'],
  'areas': [('shapespec', 30000, 150000)],
  'harness_files': ['area_shape.go', 'area_shapespec.go'],
  'rule': 'distinct case lines (lookup list, GDEF, lookup indices, one glyph sequence; or lookup list, alphabet, '
@@ -28,12 +29,18 @@ PROP = {'drive': ['ShapeSpec'],
              'exact); engine model = reference for every lookup list WITHOUT contextual subtables '
              '(C06_engine_eq_spec_simple: GSUB 1.1 1.2 2.1 3.1 4.1 8.1, GPOS 1.1 1.2 2.1 2.2 4.1 6.1, all '
              'flags, all GDEF data, all lookup orders, all sequences, wherever the reference is defined)',
-             'NOT PROVED, bounded-checked only: engine = reference for contextual and chained contextual lookups '
-             '(formats 1, 2, 3) with their nested lookups (C06_engine_eq_spec_ctx_full is a Prop definition, no '
-             'theorem).  There the tie is Go = reference on generated cases (the repository test cases of '
-             'sections 1-5, scenario generators for nested insertions/deletions, random tables) and, in the '
-             'thorough tier, exhaustive enumeration of ALL sequences of length <= 6 over 4-glyph alphabets for '
-             'about one generated lookup list in twelve - this is bounded checking, not a theorem',
+             'PROVED for all inputs (C06_engine_eq_spec_ctx_partial): engine model = reference for contextual and '
+             'chained contextual lookups of all six formats (mixed with any non-contextual subtables at top level) '
+             'whose NESTED lookups are pointwise, i.e. rewrite only the glyph they are applied to (GSUB 1.1 1.2 3.1 '
+             '8.1, GPOS 1.1 1.2 4.1 6.1) - a strict subclass of the length-preserving nested lookups; the proof is '
+             'the simulation stack entry (positions, actions, end position) <-> tags on the glyphs',
+             'NOT PROVED, bounded-checked only (C06_engine_eq_spec_ctx_full is a Prop definition, no theorem): '
+             'nested lookups that change the length (multiple substitution, ligature), nested pair adjustment, and '
+             'nested contextual lookups (more than one level).  There the tie is Go = reference on generated cases '
+             '(the repository test cases of sections 1-5, scenario generators for nested insertions/deletions, '
+             'chained contexts nested in a parent window, random tables) and, in the thorough tier, exhaustive '
+             'enumeration of ALL sequences of length <= 6 over 4-glyph alphabets for about one generated lookup '
+             'list in twelve - this is bounded checking, not a theorem',
              'Defined (= the reference returns a value) excludes: malformed tables (coverage index outside its '
              'array, empty multiple-substitution sequence, context format 3 without input coverage, glyph sets '
              'with non-member entries, lookups mixing type 8 with other types, lookup or sequence index out of '
@@ -52,15 +59,18 @@ PROP = {'drive': ['ShapeSpec'],
                            'Go = reference directly'],
  'assumptions': ['the code is compared as repaired (uncommitted patches reported with C06): #32 GSUB type 8 applied '
                  'from the end of the string; C06-ch3 ChainedSeqContext3.apply recorded the first input position '
-                 'twice; C06-attach GPOS 4.1/6.1 offsets relative to the glyph attached to; '
+                 'twice; C06-ch3skip its skip loops stopped one glyph early (an ignored glyph was matched) and the '
+                 'lookahead of a nested application did not skip ignored glyphs at the window end; C06-attach GPOS '
+                 '4.1/6.1 offsets relative to the glyph attached to; '
                  'corpus/C06/defects.case keeps the inputs that failed before the repairs',
                  'maps are association lists with distinct keys (the harness sends them sorted)']}
 
 LEVEL = {'text': 'Proof + bounded checking: an executable reference semantics of OpenType lookup application (tag-based, '
          'no positions to repair) is written in Lean from the specification text; its clauses are theorems; the '
          'engine model of C07 is proved equal to it, for ALL tables, GDEF data, flags, lookup orders and sequences, '
-         'on lookup lists without contextual subtables; the lookup-flag filter is proved equal to the OpenType '
-         'rule. For contextual lookups the real Go code is compared with the reference on generated cases and by '
+         'on lookup lists without contextual subtables and on contextual lookups (all six formats) with pointwise '
+         'nested lookups; the lookup-flag filter is proved equal to the OpenType rule. For the remaining contextual '
+         'lookups (length-changing or contextual nested lookups) the real Go code is compared with the reference on generated cases and by '
          'exhaustive enumeration of short sequences (bounded, reported as such).',
  'note': 'Trusted: Lean kernel + 3 standard axioms; the reference is a hand-written reading of the OpenType text; '
          'Go = engine model by the sampled correspondence of C07.',
